@@ -265,7 +265,7 @@ func segment(cfg *stores.Cfg, u *univ.Universe, lg *gate.Log, seed int64, client
 
 // ---------------------------------------------------------------- deterministic schedules
 
-const watch = 5 * time.Second
+const watch = 60 * time.Second
 
 func asyncCall(r *drv.Runner, lg *gate.Log, c int, op drv.Op) chan gate.Event {
 	ch := make(chan gate.Event, 1)
